@@ -41,7 +41,6 @@ Qed.
 
 Section Quant.
 Variable c : cfg.
-Hypothesis NB : blockOnOverflow c = false.   (* with block_on_overflow Start itself can park: see Proofs7 *)
 
 (* ---- backup / put ---- *)
 Lemma q_backup {A} st (k : act A) (Q : A -> store -> Prop) v0 :
@@ -100,7 +99,6 @@ Proof.
       split; [exact H1|]. split; [exact H2|]. split; [exact H3|]. split; [exact H4|]. split; [exact H5|].
       split; [cbn [length]; lia|exact H7]. }
     destruct val as [[n|l|r]|]; try exact Skip. clear Skip.
-    unfold would_wait. rewrite NB. cbn [andb].
     apply wp_bind. eapply wp_mono; [intros s0 Hs0; exact Hs0| |apply (q_put v st r HC)].
     intros [v' ok] st' H. cbn [fst snd] in H. destruct ok.
     + destruct H as (H1 & H2 & H3 & H4 & H5 & H6). cbn [fst snd].
@@ -372,17 +370,16 @@ End Quant.
 (* ------------------------------------------------------------------------------------------- *)
 
 Lemma drain_incarnation c E st n :
-  blockOnOverflow c = false ->
   Icr E st -> fits c -> (N.to_nat (rng st) + mu st <= n)%nat ->
   let st' := i_store (incarnation c st (drain_script n) None) in
   rng st' = 0 /\ (mu st' <= mu st)%nat /\
   (rng st = 0 -> nothing_durable st' \/ (mu st' < mu st)%nat).
 Proof.
-  intros NB HI Hf Hn. unfold incarnation.
+  intros HI Hf Hn. unfold incarnation.
   assert (FH : fin_hand E) by apply HI.
   assert (W : wf_store st) by apply HI.
   pose proof (wp_run _ _ _ st _ None HI (spec_initClient c E FH st HI)) as R1.
-  destruct (wp_total T _ st _ (q_initClient c NB st W)) as (st1 & [v errc] & Er & R2).
+  destruct (wp_total T _ st _ (q_initClient c st W)) as (st1 & [v errc] & Er & R2).
   rewrite Er in *.
   unfold init_post in R2. cbn [fst snd] in R1, R2. destruct R2 as (Q1 & Q2 & Q3 & Q4 & Q5 & Q6 & Q7).
   destruct W as (Wle & _ & _).
@@ -448,17 +445,17 @@ Proof.
 Qed.
 
 (* after the first drain (range empty): every further drain shortens "di" or nothing is left *)
-Lemma drains_deliver c n : blockOnOverflow c = false -> fits c -> forall k st E,
+Lemma drains_deliver c n : fits c -> forall k st E,
   Icr E st -> rng st = 0 -> (mu st < k)%nat -> (mu st <= n)%nat ->
   forall r, In r (accepted (E ++ snd (run_history c st (drains n k)))) ->
             In r (handoffs (E ++ snd (run_history c st (drains n k)))).
 Proof.
-  intros NB Hf. induction k as [|k IH]; intros st E HI Hr0 Hk Hn r; [lia|].
+  intros Hf. induction k as [|k IH]; intros st E HI Hr0 Hk Hn r; [lia|].
   cbn [drains repeat run_history]. fold (drains n k).
   set (inc := incarnation c st (drain_script n) None).
   pose proof (incarnation_inv c st (drain_script n) None E HI) as HI'. fold inc in HI'.
   assert (Hn' : (N.to_nat (rng st) + mu st <= n)%nat) by lia.
-  destruct (drain_incarnation c E st n NB HI Hf Hn') as (D1 & D2 & D3). fold inc in D1, D2, D3.
+  destruct (drain_incarnation c E st n HI Hf Hn') as (D1 & D2 & D3). fold inc in D1, D2, D3.
   specialize (D3 Hr0).
   destruct (run_history c (i_store inc) (drains n k)) as [st' evs] eqn:Eh. cbn [snd].
   rewrite app_assoc.
@@ -473,27 +470,27 @@ Qed.
 
 (* first sentence of the property: at least once, for every history *)
 Lemma at_least_once_l c h n k :
-  blockOnOverflow c = false -> fits c ->
+  fits c ->
   (pending (fst (run_history c store0 h)) <= n)%nat ->
   (length (di_of (fst (run_history c store0 h))) + 2 <= k)%nat ->
   forall r, In r (accepted (snd (run_history c store0 (h ++ drains n k)))) ->
             In r (handoffs (snd (run_history c store0 (h ++ drains n k)))).
 Proof.
-  intros NB Hf Hn Hk r. rewrite run_history_app. cbn [snd].
+  intros Hf Hn Hk r. rewrite run_history_app. cbn [snd].
   pose proof (history_inv c h store0 [] Icr_store0) as HI. cbn [app] in HI.
   set (st := fst (run_history c store0 h)) in *. set (E := snd (run_history c store0 h)) in *.
   destruct k as [|k]; [lia|]. cbn [drains repeat run_history]. fold (drains n k).
   set (inc := incarnation c st (drain_script n) None).
   pose proof (incarnation_inv c st (drain_script n) None E HI) as HI'. fold inc in HI'.
   assert (Hn' : (N.to_nat (rng st) + mu st <= n)%nat) by (unfold pending, rng, mu in *; exact Hn).
-  destruct (drain_incarnation c E st n NB HI Hf Hn') as (D1 & D2 & _). fold inc in D1, D2.
-  pose proof (drains_deliver c n NB Hf k (i_store inc) (E ++ i_events inc) HI' D1) as X.
+  destruct (drain_incarnation c E st n HI Hf Hn') as (D1 & D2 & _). fold inc in D1, D2.
+  pose proof (drains_deliver c n Hf k (i_store inc) (E ++ i_events inc) HI' D1) as X.
   destruct (run_history c (i_store inc) (drains n k)) as [st' evs]. cbn [snd] in *.
   rewrite app_assoc. apply X; unfold mu in *; lia.
 Qed.
 
 Lemma drain_progress_l c h n :
-  blockOnOverflow c = false -> fits c ->
+  fits c ->
   let st := fst (run_history c store0 h) in
   (pending st <= n)%nat ->
   let st' := i_store (incarnation c st (drain_script n) None) in
@@ -501,11 +498,18 @@ Lemma drain_progress_l c h n :
   (length (di_of st') <= length (di_of st))%nat /\
   (fst (eff st) = snd (eff st) -> nothing_durable st' \/ (length (di_of st') < length (di_of st))%nat).
 Proof.
-  intros NB Hf st Hn st'.
+  intros Hf st Hn st'.
   pose proof (history_inv c h store0 [] Icr_store0) as HI. cbn [app] in HI. fold st in HI.
   assert (Hn' : (N.to_nat (rng st) + mu st <= n)%nat) by (unfold pending, rng, mu in *; exact Hn).
-  destruct (drain_incarnation c _ st n NB HI Hf Hn') as (D1 & D2 & D3). fold st' in D1, D2, D3.
+  destruct (drain_incarnation c _ st n HI Hf Hn') as (D1 & D2 & D3). fold st' in D1, D2, D3.
   pose proof (incarnation_inv c st (drain_script n) None _ HI) as ((W & _) & _). fold st' in W.
   unfold rng, mu in *. split; [lia|]. split; [exact D2|].
   intros He. apply D3. destruct HI as ((W0 & _) & _). lia.
+Qed.
+
+(* start-up recovery always completes when the process does not die (it never waits for queue space) *)
+Lemma recovery_never_parks_l c st :
+  wf_store st -> exists st1 v errc, run_act None st (initClient c) = (st1, None, Some (v, errc)).
+Proof.
+  intros W. destruct (wp_total T _ st _ (q_initClient c st W)) as (st1 & [v errc] & E & _). eauto.
 Qed.
